@@ -297,6 +297,10 @@ def c07_jobs(tier):
                 for role in (0, 1):
                     jobs.append(job(ROOT, "HTwoPartyKeys", [e, i, p, role, 40, 0]))
     jobs.append(job(SEC, "HIKESAKeysRefuse", []))
+    # long nonces / secrets (Ni|Nr may be 512 octets): one combination per PRF
+    for p in range(3):
+        for ln, ls in ((257, 16), (512, 256), (300, 512)):
+            jobs.append(job(SEC, "HIKESAKeys", [p, (p + 1) % 3, p, ln, ls]))
     for d in range(2):
         for k in range(9 if q else 27):
             e, i, p = (k % 3, (k // 3) % 3, (k + k // 3) % 3) if q else (k % 3, (k // 3) % 3, k // 9)
@@ -317,6 +321,13 @@ def c08_jobs(tier):
                         if q and (p + e + i + ln + j) % 2 == 1:
                             continue
                         jobs.append(job(SEC, "HChildKeys", [p, e, i, ln, j]))
+    for p in range(3):
+        # long nonces (Ni|Nr up to 512 octets) and Child SA key objects built from a negotiated proposal
+        for ln in (256, 300, 512):
+            jobs.append(job(SEC, "HChildKeys", [p, (p + 1) % 3, (p + 2) % 3, ln, 3]))
+        for e in range(3):
+            for i in range(3):
+                jobs.append(job(SEC, "HChildKeys", [p, e, i, 16, 1000 + (3 if (p + e + i) % 2 else 0)]))
     return jobs
 
 
@@ -590,7 +601,7 @@ PROPS = {
                 outside="other lengths up to 512 (these buffers are only appended and hashed); the Diffie-Hellman step itself is C09",
                 assumptions=CRYPTO_ASSUME + ["HNewIKESAKey: Diffie-Hellman values are taken from the library's own group functions (decided by C09), public and shared values assumed without leading zero octet, exponent rejection loop unwound twice"]),
     "C08": dict(jobs=c08_jobs, claim="For all PRFs x ESP key sizes x {none, MD5-96, SHA1-96, SHA2-256-128} and nonce lengths in the bound, for all SK_d and nonce octets: the four Child SA keys equal consecutive slices of the independent prf+(SK_d, Ni|Nr) in the prescribed order. Histories are decided by an inductive step: the IKE SA's Prf_d starts with arbitrary octets already written (any state an earlier use can leave, since the only state is the HMAC buffer) and the keys must still equal the specification, and a second derivation on the same object gives them again.",
-                bounds=lambda t: "nonce lengths %s, junk already in the PRF object %s octets" % (("{0,1,16,32}", "{0,5}") if t == "quick" else ("0..32 and 64", "{0,1,8,63,64,65}")),
+                bounds=lambda t: "nonce lengths %s and {256,300,512}, junk already in the PRF object %s octets; key objects from a struct literal and from NewChildSAKeyByProposal" % (("{0,1,16,32}", "{0,5}") if t == "quick" else ("0..32 and 64", "{0,1,8,63,64,65}")),
                 outside="other nonce lengths", assumptions=CRYPTO_ASSUME),
     "C16": dict(jobs=c16_jobs, claim="For each (|IK'|, |CK'|, |identity|) in the bound and all octet values (arbitrary, also non-ASCII identity octets): the five derived keys equal octets 0-15, 16-47, 48-79, 80-143, 144-207 of an independently written PRF'(IK'|CK', \"EAP-AKA'\"|identity) over the same uninterpreted HMAC-SHA-256; empty IK' or CK' is refused.",
                 bounds=lambda t: "key lengths %s, identity lengths %s" % (("{1,16,17,32,64}", "{0,1,15,16,64,255}") if t == "quick" else ("1..64", "0..255")),
